@@ -72,8 +72,10 @@ long atol(const char *p)
     if (k < r_count) {
         size_t l = item_len(IN.arg, k);
         /* the filter splits in place (commas -> NUL) in its private copy: p must spell exactly item k */
-        V_ASSERT(strlen(p) == l, "C14: item handed to the conversion has the length of list item k");
-        V_ASSERT(memcmp(p, IN.arg + r_start[k], l) == 0, "C14: item handed to the conversion is list item k byte for byte");
+        int same = 1;
+        size_t i = 0;
+        for (; i < l; i++) if (p[i] == '\0' || p[i] != IN.arg[r_start[k] + i]) { same = 0; break; }   /* plain loop (no memcmp: array theory) */
+        V_ASSERT(same && p[l] == '\0', "C14: item handed to the conversion is list item k byte for byte");
         return (long)IN.vals[k];
     }
     return 0;
@@ -83,6 +85,10 @@ void harness(void)
 {
     V_HAVOC_IN();
     IN.arg[ARGCAP] = '\0';
+#ifdef LONGITEM     /* first item is exactly LONGITEM bytes long (real uids have up to 10 digits), then optional ",x.." */
+    for (int i = 0; i < LONGITEM; i++) V_ASSUME(IN.arg[i] != ',' && IN.arg[i] != '\0');
+    V_ASSUME(IN.arg[LONGITEM] == ',' || IN.arg[LONGITEM] == '\0');
+#endif
     ref_split(IN.arg);
     for (int k = 0; k < MAXITEMS; k++) V_ASSUME(IN.vals[k] <= 4294967294ULL);   /* well-formed uids */
     int member = 0;
@@ -100,6 +106,7 @@ void harness(void)
     V_ASSERT(only != excl, "C14: only_uid:L and exclude_uid:L never agree");
     V_ASSERT(root == ((IN.uid == 0) ? SNOOPY_FILTER_PASS : SNOOPY_FILTER_DROP), "C14: only_root passes exactly uid 0");
 
+#ifndef NO_EUID2
     /* 2-safety: the verdicts do not depend on the effective uid */
     g_euid = IN.euid2;
     g_atol_calls = 0;
@@ -108,6 +115,7 @@ void harness(void)
     int excl2 = snoopy_filter_exclude_uid(IN.arg);
     int root2 = snoopy_filter_only_root(IN.arg);
     V_ASSERT(only2 == only && excl2 == excl && root2 == root, "C14: verdict independent of the effective uid");
+#endif
     V_WITNESS();
 }
 #else
